@@ -14,7 +14,7 @@ from datetime import date, datetime, time, timedelta, timezone
 LEAK = "X-VERIF-LEAK"
 
 
-def run():
+def run(LEAK=LEAK):
     import icalendar
     from icalendar import prop as P
     from icalendar.parser import Contentline, Contentlines, Parameters
